@@ -350,9 +350,19 @@ def const_int(n):
     return None
 
 
-def is_ref_to(n, decl):
+def is_ref_to(n, decl, _depth=0):
     n = skip_copies(n)
-    return isinstance(n, dict) and n.get("k") == "ref" and n.get("decl") == decl
+    if not (isinstance(n, dict) and n.get("k") == "ref"):
+        return False
+    if n.get("decl") == decl:
+        return True
+    if n.get("inl_param") and _depth < 4:
+        # parameter of a helper that was spliced into its caller (engine/inline.py): it stands for its argument
+        from .inline import PARAM_BIND
+        binds = PARAM_BIND.get(n.get("decl"))
+        if binds:
+            return all(is_ref_to(a, decl, _depth + 1) for a in binds)
+    return False
 
 
 def is_field(n, qname):
